@@ -18,6 +18,7 @@ LEVEL_TEXT = ("5e3 (quick) / 1e5 (thorough) generated configurations mixing fini
               "every reported difference and violation compared with the formula; user-domain results under transforms; tracker feasibility iff violations <= tolerance")
 LEVEL_NOTE = "trusted: the formula in this file; missing information is accepted only for a bound kind without any finite bound"
 ANCHOR_FILES = ["src/ropt/results/_constraint_info.py", "src/ropt/plugins/plan/_utils.py"]
+CONTRACT_GROUPS = ['C13']   # icontract layer (vlib/contracts.py) active inside the workload and in the repository's own tests
 RULE = ("case = one configuration + point; non-trivial if some constraint kind has a finite bound (info required); distinct key = case index; "
         "monitor_counters count compared entries and how many were violated bounds")
 ASSUMPTIONS = ["with transforms the user-domain result must satisfy the formula with the user-domain bounds (to 1e-9 relative)"]
